@@ -46,7 +46,7 @@ fn observe<G: GraphLike>(g: &G, ren: &BTreeMap<usize, usize>) -> Result<String, 
 
 pub fn run(cx: &mut Ctx) {
     cx.check("backends_agree_and_stay_consistent", |cb| {
-        for seed in 1..=60u64 {
+        for seed in 1..=60 * crate::scale() {
             let mut rng = Rng(seed.wrapping_mul(0x9E3779B97F4A7C15) | 1);
             let mut a = quizx::vec_graph::Graph::new();
             let mut b = quizx::hash_graph::Graph::new();
